@@ -51,7 +51,7 @@ def run(tier, rep, work):
         v = C.validate_trace(sub, "HNSWT", "HNSWT_m.cfg", trace, max_rejects=40)
         if "EVENTS %d" % v["events"] not in p.stdout:
             raise C.Inconclusive("event count mismatch")
-        rep.trace_run("lattice M=%d conformance" % m, v, histories_nontrivial=C.distinct_nontrivial(trace, {"add", "remove", "flush"}, {"search"}))
+        rep.trace_run("lattice M=%d conformance" % m, v, histories_nontrivial=C.distinct_nontrivial(trace, {"add", "remove", "flush", "reload"}, {"search"}))
         drift = {rj["history_start"] for rj in v["rejected"]} | set(v["unvalidated"])     # not shown to be the specification's graph = not explained
         rr, reports = C.run_reports(sub, "HNSWP", "HNSWP.cfg", trace)
         rep.model_run("HNSWP monitors lattice M=%d" % m, rr, "property monitors on the exported real graphs")
